@@ -75,6 +75,21 @@ theorem gen_enqueue_burst_window (xs : List Nat) (r : Rbuf) (h : r.Inv) (hc : r.
   rw [gen_history_agrees (xs.map Op.enqueue) r {} h hc]
   exact ⟨by rw [toRbuf_ofRbuf]; exact C19.enqueue_burst_window xs r {} h, rfl⟩
 
+/-- **End to end on the translated text**: chain the generated `cc_rbuf_enqueue` over `xs`, then the
+generated `cc_rbuf_dequeue` `k` times: the dequeues return status 0 (`CC_OK`) with the first `k` items of
+the window in order, then status 8 (`CC_ERR_OUT_OF_RANGE`) with no value; no undefined behaviour. -/
+theorem gen_burst_then_drain (xs : List Nat) (k : Nat) (r : Rbuf) (h : r.Inv) (hc : r.cap < 2 ^ 64) :
+    (genRun (xs.map Op.enqueue ++ List.replicate k Op.dequeue) (ofRbuf r)).1 =
+      xs.map (fun _ => ((none, none) : Option Nat × Option Nat)) ++
+      ((((r.abs ++ xs).drop (r.size + xs.length - r.cap)).take k).map (fun x => (some 0, some x)) ++
+        List.replicate (k - ((r.abs ++ xs).drop (r.size + xs.length - r.cap)).length) (some 8, none)) ∧
+    (genRun (xs.map Op.enqueue ++ List.replicate k Op.dequeue) (ofRbuf r)).2.2 = false := by
+  rw [gen_history_agrees _ r {} h hc]
+  refine ⟨?_, rfl⟩
+  show List.map codeOut _ = _
+  rw [C19.burst_then_drain xs k r {} h]
+  simp [codeOut, C19.okOut, C19.emptyOut, codes, Function.comp_def]
+
 /-! ## Non-vacuity: a wrapped, exactly full buffer, evaluated on the generated functions -/
 example : let g := genRun [.enqueue 1, .dequeue, .dequeue, .dequeue, .dequeue]
             (ofRbuf (Rbuf.mk 3 3 1 1 [8, 6, 7] .conf))
